@@ -322,11 +322,12 @@ def native_coef2(obs, v, w):
 
 # ------------------------------------------------------------------ obligation runner
 def run_pool(obligations, worker, jobs=None, seed=0, deadline_s=None):
-    """run worker(ob) for each obligation in forked worker processes; returns list of result dicts in input order.
+    """run worker(ob) for each obligation, EACH IN ITS OWN forked process (at most `jobs` at a time); returns the list of
+    result dicts in input order.  One process per obligation makes the verdict of an obligation independent of which
+    obligations happened to run before it in the same process (z3's global term table and heuristics are history
+    dependent: with a shared worker the order, and so VERIF_SEED, changed verdicts of hard queries).
     A crashed worker or an exhausted deadline yields {'error': ...} entries (reported as undecided), never a hang."""
-    import multiprocessing as mp
-    from concurrent.futures import ProcessPoolExecutor, as_completed
-    from concurrent.futures.process import BrokenProcessPool
+    import pickle, select, signal
     get_world()          # dump MIR + load once in the parent so children inherit it
     replay_exe("dev")
     jobs = jobs or int(os.environ.get("VERIF_JOBS", "0")) or min(C.NCPU, 14)
@@ -337,34 +338,69 @@ def run_pool(obligations, worker, jobs=None, seed=0, deadline_s=None):
     deadline_s = deadline_s or (1500 if tier == "quick" else 12000)
     out = [None] * len(obligations)
     t0 = time.time()
-    ctx = mp.get_context("fork")
-    ex = ProcessPoolExecutor(max_workers=jobs, mp_context=ctx)
-    futs = {}
+    w_ = _Wrap(worker)
+    pending = list(order)
+    running = {}            # read fd -> [index, pid, buffer]
+    sys.stdout.flush(); sys.stderr.flush()
     try:
-        w = _Wrap(worker)
-        for i in order:
-            futs[ex.submit(w, obligations[i])] = i
-        try:
-            for f in as_completed(futs, timeout=deadline_s):
-                i = futs[f]
+        while pending or running:
+            while pending and len(running) < jobs:
+                i = pending.pop(0)
+                rfd, wfd = os.pipe()
+                pid = os.fork()
+                if pid == 0:
+                    code = 0
+                    try:
+                        os.close(rfd)
+                        for fd_ in list(running):
+                            try: os.close(fd_)
+                            except OSError: pass
+                        res = w_(obligations[i])
+                        data = pickle.dumps(res)
+                        with os.fdopen(wfd, "wb") as f:
+                            f.write(data)
+                    except BaseException:
+                        code = 1
+                    finally:
+                        os._exit(code)
+                os.close(wfd)
+                os.set_blocking(rfd, False)
+                running[rfd] = [i, pid, bytearray()]
+            left = deadline_s - (time.time() - t0)
+            if left <= 0:
+                break
+            ready, _, _ = select.select(list(running), [], [], min(1.0, left))
+            for rfd in ready:
+                ent = running[rfd]
                 try:
-                    out[i] = f.result()
-                except BrokenProcessPool:
+                    chunk = os.read(rfd, 1 << 20)
+                except BlockingIOError:
+                    continue
+                if chunk:
+                    ent[2] += chunk
+                    continue
+                os.close(rfd)
+                del running[rfd]
+                try:
+                    os.waitpid(ent[1], 0)
+                except ChildProcessError:
+                    pass
+                i = ent[0]
+                try:
+                    out[i] = pickle.loads(bytes(ent[2]))
+                except Exception:
                     out[i] = {"ob": obligations[i].get("id"), "error": "worker process died"}
-                except Exception as e:
-                    out[i] = {"ob": obligations[i].get("id"), "error": f"{type(e).__name__}: {e}"}
-        except TimeoutError:
-            pass
-        for f, i in futs.items():
-            if out[i] is None:
-                out[i] = {"ob": obligations[i].get("id"), "error": f"not finished within the {deadline_s}s deadline of this tier (undecided)"}
     finally:
-        for p in list(getattr(ex, "_processes", {}).values()):
-            try:
-                p.kill()
-            except Exception:
-                pass
-        ex.shutdown(wait=False, cancel_futures=True)
+        for rfd, ent in list(running.items()):
+            try: os.kill(ent[1], signal.SIGKILL)
+            except OSError: pass
+            try: os.waitpid(ent[1], 0)
+            except OSError: pass
+            try: os.close(rfd)
+            except OSError: pass
+    for i in range(len(obligations)):
+        if out[i] is None:
+            out[i] = {"ob": obligations[i].get("id"), "error": f"not finished within the {deadline_s}s deadline of this tier (undecided)"}
     return out
 
 
